@@ -271,7 +271,7 @@ func failsKind(ex Executor, ops []Op, kind string) (bool, []string, int, string)
 }
 
 func safeExec(ex Executor, ops []Op) (lines []string) {
-	// a case during which a hang watchdog fired (in this or a concurrently running case) is executed again, up to twice:
+	// a case during which a hang watchdog fired (in this or a concurrently running case) is executed once more:
 	// see watchdog.go noteHang
 	for attempt := 0; ; attempt++ {
 		before := atomic.LoadInt64(&hangsNoted)
@@ -282,11 +282,15 @@ func safeExec(ex Executor, ops []Op) (lines []string) {
 			}
 			return lines
 		}
-		if attempt == 2 {
+		if atomic.LoadInt64(&confirmedHangs) > 0 {
+			return lines // the check is failing already: no more re-execution (watchdog.go confirmedHangs)
+		}
+		if attempt == 1 {
+			atomic.AddInt64(&confirmedHangs, 1)
 			return lines
 		}
 		atomic.AddInt64(&hangRetries, 1)
-		time.Sleep(time.Duration(2+3*attempt) * time.Second)
+		time.Sleep(2 * time.Second)
 	}
 }
 
